@@ -27,6 +27,8 @@ for s in sigs:
         sc = scobs.split(".")[0]
         if w == "delete_edge":
             add(f"{prop}-Q1", "DELETE on an edge variable is planned as DeleteNode (no front end ever emits DeleteEdge): the edge stays, and the node whose id equals the edge's id is deleted instead", "crates/grafeo-engine/src/query/gql_translator.rs:199-207, 850-865 (delete clauses always build DeleteNodeOp)", s)
+        elif w == "create_edge_cypher":
+            add(f"{prop}-Q4", "Cypher CREATE of a relationship between variables bound by a preceding MATCH (MATCH (a..),(b..) CREATE (a)-[r:R]->(b)) creates two fresh, empty nodes and connects those; the matched nodes get no edge (the Cypher translator emits CreateNode for every node of a CREATE path, bound or not)", "crates/grafeo-engine/src/query/cypher_translator.rs:849-920 (translate_create_pattern)", s)
         elif w == "set_edge_prop":
             add(f"{prop}-Q2", "SET on an edge variable writes the property to the node whose id equals the edge's id; the edge is unchanged", "crates/grafeo-core/src/execution/operators/mutation.rs (SetPropertyOperator treats every entity column as a node id)", s)
         elif r == "two_hop" and outcome.startswith("error"):
